@@ -74,8 +74,8 @@ func Chdir(dir string) error {
 	}
 	return os.Chdir(dir)
 }
-func Exit(code int)                     { panic("os.Exit called") }
-func TempDir() string                   { return "/tmp" }
+func Exit(code int)   { panic("os.Exit called") }
+func TempDir() string { return "/tmp" }
 
 func OpenFile(name string, flag int, perm FileMode) (*File, error) {
 	if x := zzvrt.Cur(); x != nil {
